@@ -64,8 +64,19 @@ type buildEv struct {
 	Multi bool                `json:"multi"`
 	Res   *BStateJ             `json:"res,omitempty"`
 	Ins   []map[string]BStateJ `json:"ins,omitempty"`
+
 	Out   map[string]BStateJ   `json:"out,omitempty"`
 	Panic string              `json:"panic"`
+}
+
+// listEv: one call of a list builder (Recv: the receiver, empty for SAdd)
+type listEv struct {
+	Ev    string `json:"ev"`
+	Fn    string `json:"fn"`
+	Recv  RelJ   `json:"recv"`
+	Lists []RelJ `json:"lists"`
+	Got   RelJ   `json:"got"`
+	Panic string `json:"panic"`
 }
 
 func bschemaJ(s am.Schema) map[string]BStateJ {
@@ -84,7 +95,7 @@ func RunBuilders(w io.Writer, seed int64, nRandom int) (n int, err error) {
 	r := rand.New(rand.NewSource(seed))
 	bw := bufio.NewWriter(w)
 	defer bw.Flush()
-	emit := func(e buildEv) {
+	emit := func(e any) {
 		b, _ := json.Marshal(e)
 		bw.Write(b)
 		bw.WriteByte('\n')
@@ -152,6 +163,65 @@ func RunBuilders(w io.Writer, seed int64, nRandom int) (n int, err error) {
 		call(fns[i%len(fns)], mkState(r.Intn(2) == 0, r.Intn(2) == 0, rnd()),
 			mkState(r.Intn(2) == 0, r.Intn(2) == 0, rnd()), r.Intn(2) == 0, r.Intn(2) == 0)
 	}
+	// the list builders relations are written with (`Remove: SAdd(groupA, groupB)`,
+	// `group.Add(other)`, `group.Add1("X")`): every arity 0..3 over a few lists
+	lvals := []am.S{nil, {}, {"A"}, {"B", "A"}, {"A", "B", "C"}, {"C", "C"}}
+	var argLists [][]am.S
+	argLists = append(argLists, []am.S{})
+	for _, a := range lvals {
+		argLists = append(argLists, []am.S{a})
+		for _, b := range lvals {
+			argLists = append(argLists, []am.S{a, b})
+		}
+	}
+	for i := 0; i < 12; i++ {
+		argLists = append(argLists, []am.S{lvals[r.Intn(len(lvals))], lvals[r.Intn(len(lvals))], lvals[r.Intn(len(lvals))]})
+	}
+	clone := func(l am.S) am.S {
+		if l == nil {
+			return nil
+		}
+		return append(am.S{}, l...)
+	}
+	for _, args := range argLists {
+		ls := []RelJ{}
+		for _, a := range args {
+			ls = append(ls, relJ(a))
+		}
+		// SAdd(lists...)
+		func() {
+			e := listEv{Ev: "list", Fn: "SAdd", Lists: ls, Recv: relJ(nil), Got: relJ(nil)}
+			defer func() {
+				if p := recover(); p != nil {
+					e.Panic = "panic"
+				}
+				emit(e)
+			}()
+			in := []am.S{}
+			for _, a := range args {
+				in = append(in, clone(a))
+			}
+			e.Got = relJ(am.SAdd(in...))
+		}()
+		// recv.Add(lists...)
+		for _, recv := range lvals {
+			func() {
+				e := listEv{Ev: "list", Fn: "S.Add", Recv: relJ(recv), Lists: ls, Got: relJ(nil)}
+				defer func() {
+					if p := recover(); p != nil {
+						e.Panic = "panic"
+					}
+					emit(e)
+				}()
+				in := []am.S{}
+				for _, a := range args {
+					in = append(in, clone(a))
+				}
+				e.Got = relJ(clone(recv).Add(in...))
+			}()
+		}
+	}
+
 	// Merge
 	keys := []string{"A", "B", "C"}
 	mkSchema := func() am.Schema {
